@@ -68,6 +68,9 @@ def build_data(spec):
         elif kind == 'sorted_heavy':
             # heavy-tailed data in descending order
             z = 1e4 / (1 + i) ** 2
+        elif kind == 'late_spikes':
+            # ordinary data with a spike every 25 items: the newest item is often far from the mean, early and late in the sequence
+            z = r.gauss(0, 1) * (1000.0 if i % 25 == 24 else 1.0)       # (positions of both parities)
         elif kind in ('int_first', 'int_float_mix'):
             # numbers as JSON / CSV deliver them: 1000000 next to 1000000.25 - a plain Python int FIRST and floats after it, or ints
             # and floats in any order (a choice of algorithm made from the first item's type meets the other type later)
@@ -209,7 +212,7 @@ class C12(Check):
             # the formal operators in STREAMING mode on one sequence of more than 8192 items (quadratic: about ten seconds), every
             # emission judged - elsewhere only their reduce value is checked beyond 1200 items
             yield {'op': ('fvariance', 'fstddev')[shard], 'mode': 'plain', 'km': False, 'stream_all': True, 'watchdog_s': 600,
-                   'data': {'kind': 'outlier', 'n': 8300 + shard * 500, 'offset': 1e3, 'scale': 1.0, 'dseed': rng.randrange(1 << 30)}}
+                   'data': {'kind': 'late_spikes', 'n': 8300 + shard * 500, 'offset': 1e3, 'scale': 1.0, 'dseed': rng.randrange(1 << 30)}}
         for k in range(ncases):
             op = OPS[k % len(OPS)]
             n = ns[(k // len(OPS)) % len(ns)]
